@@ -12,12 +12,15 @@ for prop in sorted(os.listdir("/tmp/seed/out")):
     for k in (1,2):
         key="%s_%d"%(prop,k)
         if len(sys.argv)>1 and key not in sys.argv[1:]: continue
-        run=open("%s/demo%d/RUN.txt"%(out,k)).read().replace("$OUT",out).replace("{OUT}",out).replace("${OUT}",out)
+        run=open("%s/demo%d/RUN.txt"%(out,k)).read()
+        demo="%s/demo%d"%(out,k)
+        base = demo if re.search(r"OUT is the directory this file lives in", run) else out
+        run=run.replace("${OUT}",base).replace("$OUT",base).replace("{OUT}",base).replace("<OUT>",base)
         run=re.sub(r"\\\n\s*"," ",run)   # join backslash continuations
-        setup=[l.strip() for l in run.split("\n") if re.match(r"^\s*(mkdir -p|cp )", l)]
+        setup=[l.strip() for l in run.split("\n") if re.match(r"^\s*(mkdir -p|cp |printf .*>> )", l)]
         tests=[]
         for l in run.split("\n"):
-            l=l.strip()
+            l=re.sub(r"^(\w+=\S+\s+)+","",l.strip())
             if l.startswith("cargo test") and l not in tests: tests.append(l)
         sh("git checkout -- . && git clean -fdq")
         for c in setup: sh(c)
